@@ -89,17 +89,22 @@ def _success_exits(b):
     return [blk.idx for blk in b.blocks if not blk.cleanup and blk.term.k == 'ret']
 
 
-def _postorient(ctx, cfg, prog, lv, constructors=False):
-    ctx.rule('POSTORIENT', 'no exported operation returns success after a flip repair driver succeeded without re-validating '
-                           'the geometric orientation of the cells')
-    ctx.anchor(cfg, ORIENT)
+def _postorient(ctx, cfg, prog, lv, constructors=False, drivers=None, leaves=None, rule='POSTORIENT', scope=None,
+                what='a flip repair driver'):
+    drivers = set(DRIVERS) if drivers is None else set(drivers)
+    leaves = {ORIENT} if leaves is None else set(leaves)
+    ctx.rule(rule, 'no exported operation returns success after %s succeeded without re-validating '
+                   'the geometric orientation of the cells' % what)
+    for l_ in leaves:
+        ctx.anchor(cfg, l_)
     # gates: functions that cannot return success without the orientation check having passed (greatest fixed
     # point), not merely functions from which the check is reachable
-    cands = {q for q, b_ in prog.bodies.items() if ORIENT in lv.reach_set(q) and flow.type_kind(b_.locals[0]) == 'result'}
-    G, _ = gate.certified_set(prog, lv, {ORIENT}, cands, zero_counters=('core::triangulation_data_structure::Tds::number_of_cells',))
-    orient_reach = set(G) | {ORIENT}
-    ctx.info.setdefault('orientation_gates', {})[cfg] = sorted(orient_reach)
-    X = set(DRIVERS)          # bodies that can return success with a driver's un-normalised result
+    cands = {q for q, b_ in prog.bodies.items() if (leaves & (lv.reach_set(q) | {q})) and flow.type_kind(b_.locals[0]) == 'result'
+             and q not in leaves}
+    G, _ = gate.certified_set(prog, lv, leaves, cands, zero_counters=('core::triangulation_data_structure::Tds::number_of_cells',))
+    orient_reach = set(G) | leaves
+    ctx.info.setdefault('orientation_gates_' + rule, {})[cfg] = sorted(orient_reach)
+    X = set(drivers)          # bodies that can return success with a driver's un-normalised result
     why = {}
     changed = True
     while changed:
@@ -151,7 +156,9 @@ def _postorient(ctx, cfg, prog, lv, constructors=False):
     for q, b in sorted(prog.bodies.items()):
         if b.kind == 'closure' or not b.exported:
             continue
-        if not (lv.reach_set(q) & DRIVERS):
+        if not (lv.reach_set(q) & drivers):
+            continue
+        if scope is not None and not scope(q, b):
             continue
         is_ctor = 'DelaunayTriangulation<' in b.locals[0] and not any(
             pair.pointee_head(b.locals[i_])[0] in (pair.TRI, pair.DT) and pair.pointee_head(b.locals[i_])[1]
@@ -160,13 +167,12 @@ def _postorient(ctx, cfg, prog, lv, constructors=False):
             continue      # constructors are judged under C01, operations on a live triangulation under C08
         n += 1
         ok = q not in X
-        ctx.ob('POSTORIENT', q, cfg, ok,
-               'success is reported only after validate_geometric_cell_orientation passed (or no flip driver succeeded on the path)'
-               if ok else 'a success exit (blocks %s) is reachable after a flip repair driver succeeded without '
-               're-validating the geometric orientation: the repaired triangulation can be exposed with negatively oriented cells '
-               '(Level 3 invalid)' % why.get(q), assumed=POSTORIENT_TABLE.get(q), site='%s:%d' % (b.file, b.line))
-    ctx.floor('exported %s that can reach a repair driver (POSTORIENT)' % ('constructors' if constructors else 'operations'), 5, n, cfg)
-    ctx.info.setdefault('postorient_internal_unnormalised', {})[cfg] = sorted(x for x in X - DRIVERS if prog.bodies[x].kind != 'closure')[:40]
+        msg_ok = 'success is reported only after the orientation check passed (or none of the primitives succeeded on the path)'
+        msg_bad = ('a success exit (blocks %s) is reachable after %s succeeded without re-validating the geometric orientation: '
+                   'the triangulation can be exposed with negatively oriented or degenerate cells (Level 3 invalid)' % (why.get(q), what))
+        ctx.ob(rule, q, cfg, ok, msg_ok if ok else msg_bad, assumed=POSTORIENT_TABLE.get(q), site='%s:%d' % (b.file, b.line))
+    ctx.floor('exported %s that can reach %s (%s)' % ('constructors' if constructors else 'operations', what, rule), 2 if scope else 5, n, cfg)
+    ctx.info.setdefault('unnormalised_internal_' + rule, {})[cfg] = sorted(x for x in X - drivers if prog.bodies[x].kind != 'closure')[:40]
 
 
 SEEDQ = F + 'seed_repair_queues'
@@ -386,6 +392,9 @@ def _sameverts(ctx, cfg, prog, mod):
     ctx.ob('SAMEVERTS', REBUILD + '|feeds-collection', cfg, uses and not rnames,
            'calls collect_vertices_for_rebuild: %s; filtering adaptors applied to the vertex vector: %s' % (uses, sorted(set(rnames)) or 'none'),
            site='%s:%d' % (rb.file, rb.line))
+    # 2b. the rebuild's insertions store the collected coordinates unchanged unless a retry was needed
+    import idkeep
+    idkeep.check_first_attempt(ctx, cfg, prog, mod, 'SAMEVERTS')
     # 3. Skipped => Err: from the Skipped arm of every match on an InsertionOutcome in the rebuild family, neither an
     #    Ok exit nor the loop header (next vertex) is reachable
     n_sw = 0
